@@ -50,16 +50,33 @@ def pickBy (want : Ordering) : List Value → PRes Value
       | none => .unsup "min/max over reference types"
       | some o => pure (if o == want then x else best)) (.ok a)
 
-def arr? (st : State) (v : Value) : PRes (Nat × Array Value) :=
+/-- the part of the machine state a core function can see and change: heap, effect trace, result cell.  (Frames and
+    pending call arguments are out of its reach by construction: `callPrim` below is `callPrimW` on `st.world`.) -/
+structure World where
+  heap : Array HeapObj := #[]
+  trace : Array String := #[]
+  result : Value := Value.nil
+  deriving Inhabited
+
+def World.alloc (w : World) (o : HeapObj) : World × Nat := ({ w with heap := w.heap.push o }, w.heap.size)
+def World.emit (w : World) (s : String) : World := { w with trace := w.trace.push s }
+def State.world (st : State) : World := { heap := st.heap, trace := st.trace, result := st.result }
+def State.withWorld (st : State) (w : World) : State := { st with heap := w.heap, trace := w.trace, result := w.result }
+
+def allocVW (st : World) (o : HeapObj) (mk : Nat → Value) : Value × World :=
+  let (st', a) := st.alloc o
+  (mk a, st')
+
+def arr? (st : World) (v : Value) : PRes (Nat × Array Value) :=
   match v with
   | .arr a => match st.heap[a]? with | some (.arr xs) => .ok (a, xs) | _ => .rt
   | _ => .rt
 
 /-- core function `name` applied to `args` -/
-def callPrim (name : String) (args : List Value) (st : State) : PRes (Value × State) :=
-  let pure1 (r : PRes Value) : PRes (Value × State) := do let v ← r; pure (v, st)
-  let bool1 (b : PRes Bool) : PRes (Value × State) := do let v ← b; pure (.bool v, st)
-  let arg1 (f : Value → PRes Value) : PRes (Value × State) :=
+def callPrimW (name : String) (args : List Value) (st : World) : PRes (Value × World) :=
+  let pure1 (r : PRes Value) : PRes (Value × World) := do let v ← r; pure (v, st)
+  let bool1 (b : PRes Bool) : PRes (Value × World) := do let v ← b; pure (.bool v, st)
+  let arg1 (f : Value → PRes Value) : PRes (Value × World) :=
     match args with | [a] => pure1 (f a) | _ => .rt
   match name with
   | "+" => pure1 (foldArith .add 0 id args)
@@ -116,14 +133,14 @@ def callPrim (name : String) (args : List Value) (st : State) : PRes (Value × S
     | _ => .rt
   | "array/slice" => do
       let xs ← sliceList st.heap args
-      let (v, st') := allocV st (.arr xs.toArray) Value.arr
+      let (v, st') := allocVW st (.arr xs.toArray) Value.arr
       pure (v, st')
   | "tuple/slice" => do let xs ← sliceList st.heap args; pure (.tuple xs false, st)
-  | "array" => let (v, st') := allocV st (.arr args.toArray) Value.arr; .ok (v, st')
+  | "array" => let (v, st') := allocVW st (.arr args.toArray) Value.arr; .ok (v, st')
   | "tuple" => .ok (.tuple args false, st)
   | "table" => if args.length % 2 == 1 then .rt else do
       let kvs ← mkTablePairs args
-      let (v, st') := allocV st (.tbl kvs) Value.tbl
+      let (v, st') := allocVW st (.tbl kvs) Value.tbl
       pure (v, st')
   | "struct" => if args.length % 2 == 1 then .rt else .ok (mkStruct st.heap args, st)
   | "string" => do
@@ -177,5 +194,13 @@ def callPrim (name : String) (args : List Value) (st : State) : PRes (Value × S
     | _ => .rt
   | "error" => match args with | [a] => .user a | _ => .rt
   | n => .unsup ("core function " ++ n)
+
+/-- core function `name` applied to `args` in machine state `st`: only the world part is read and changed -/
+def callPrim (name : String) (args : List Value) (st : State) : PRes (Value × State) :=
+  match callPrimW name args st.world with
+  | .ok (v, w) => .ok (v, st.withWorld w)
+  | .rt => .rt
+  | .user v => .user v
+  | .unsup w => .unsup w
 
 end JanetModel.Bytecode.Exec
